@@ -93,7 +93,7 @@ func genBlob(t *rapid.T, label string, damaged bool) []byte {
 
 func genFrame(t *rapid.T, label string, real bool) ([]byte, string) {
 	good := []string{"addhard-new", "addhard-legacy", "listslots", "readslot", "attestslot", "wait", "list", "listv1", "sign", "add", "addconstrained", "remove", "removeall", "lock", "unlock", "std-truncated", "unknown", "unknown", "len2", "extension"}
-	bad := []string{"addhard-junk", "len0", "len1", "len1", "addhard-new", "addhard-legacy", "add-short-constraint", "add-short-constraint"}
+	bad := []string{"addhard-junk", "len0", "len1", "len1", "addhard-new", "addhard-legacy", "add-short-constraint", "add-short-constraint", "length-edit", "length-edit"}
 	kinds := good
 	isBad := rapid.IntRange(0, 9).Draw(t, label+"Bad") == 0
 	if isBad {
@@ -107,6 +107,35 @@ func genFrame(t *rapid.T, label string, real bool) ([]byte, string) {
 		return append(append([]byte{31}, sshString(genBlob(t, label+"B", isBad))...), sshString([]byte(comment))...), k
 	case "addhard-legacy":
 		return append([]byte{31}, genBlob(t, label+"B", isBad)...), k
+	case "length-edit":
+		// a well-formed structured request with one of its inner length fields overwritten by a boundary value
+		var f []byte
+		switch rapid.IntRange(0, 3).Draw(t, label+"LEBase") {
+		case 0:
+			f = append(append([]byte{31}, sshString(genBlob(t, label+"B", false))...), sshString([]byte("yubikey"))...)
+		case 1:
+			f = append(append(append([]byte{13}, sshString(vh.SSHPub(key).Marshal())...), sshString([]byte("data"))...), 0, 0, 0, 0)
+		case 2:
+			f = append([]byte{18}, sshString(vh.SSHPub(key).Marshal())...)
+		default:
+			f = append([]byte{22}, sshString([]byte("passphrase"))...)
+		}
+		var fields []int
+		for off := 1; off+4 <= len(f); {
+			fields = append(fields, off)
+			n := int(f[off])<<24 | int(f[off+1])<<16 | int(f[off+2])<<8 | int(f[off+3])
+			if n < 0 || off+4+n > len(f) {
+				break
+			}
+			off += 4 + n
+		}
+		if len(fields) > 0 {
+			at := fields[rapid.IntRange(0, len(fields)-1).Draw(t, label+"LEField")]
+			old := uint32(f[at])<<24 | uint32(f[at+1])<<16 | uint32(f[at+2])<<8 | uint32(f[at+3])
+			v := rapid.SampledFrom([]uint32{0xffffffff, 0xfffffffe, 0xfffffffd, 0xfffffffc, 0xfffffffb, 0x80000000, 0x7fffffff, 0x01000000, old + 1, old - 1, 0}).Draw(t, label+"LEValue")
+			f[at], f[at+1], f[at+2], f[at+3] = byte(v>>24), byte(v>>16), byte(v>>8), byte(v)
+		}
+		return f, k
 	case "addhard-junk":
 		return append([]byte{31}, rapid.SliceOfN(rapid.Byte(), 0, 40).Draw(t, label+"J")...), k
 	case "listslots":
@@ -534,7 +563,7 @@ func codeOf(b []byte) any {
 	return b[0]
 }
 
-const rule = "byte streams for ServeAgent over an in-memory connection: 0..8 frames from a grammar (add-hardware-certificate in the new and the legacy encoding with real, bit-flipped and truncated key / certificate blobs, junk; list slots; read / attest slot with slot names; wait with any code; the nine standard requests well-formed (built by the library client), truncated, and with a lifetime constraint cut short; unknown codes and extension with random bodies; frames of length 0, 1 and 2 with any code), followed by a clean end, a truncated length prefix, a truncated body or a declared length in {16 MiB+1, 2^30, 2^31, 2^32-1}; the served agent is a total recording agent that succeeds or fails every call with a text or with exactly io.EOF / io.ErrUnexpectedEOF. Oracle: the harness parses the stream itself; a well-formed frame gets exactly one response of the right kind (SUCCESS / error text, marshalled slot replies, standard reply code, byte-identical forwarded reply) with the arguments recorded by the served agent; a malformed frame is answered or ends the connection with a non-nil error; responses in request order; nothing after the end; clean end => nil; nil => as many responses as complete frames; truncated length prefix or truncated body (including a stream that ends right after a length prefix) => error; oversize => error and < 8 MiB allocated. Non-trivial: >= 2 frames mixing well-formed and malformed, or a non-clean tail after >= 1 frame."
+const rule = "byte streams for ServeAgent over an in-memory connection: 0..8 frames from a grammar (add-hardware-certificate in the new and the legacy encoding with real, bit-flipped and truncated key / certificate blobs, junk; list slots; read / attest slot with slot names; wait with any code; the nine standard requests well-formed (built by the library client), truncated, with a lifetime constraint cut short, and with an inner length field overwritten by a boundary value (2^32-1..2^32-5, 2^31, 2^31-1, 2^24, the right value +-1, 0); unknown codes and extension with random bodies; frames of length 0, 1 and 2 with any code), followed by a clean end, a truncated length prefix, a truncated body or a declared length in {16 MiB+1, 2^30, 2^31, 2^32-1}; the served agent is a total recording agent that succeeds or fails every call with a text or with exactly io.EOF / io.ErrUnexpectedEOF. Oracle: the harness parses the stream itself; a well-formed frame gets exactly one response of the right kind (SUCCESS / error text, marshalled slot replies, standard reply code, byte-identical forwarded reply) with the arguments recorded by the served agent; a malformed frame is answered or ends the connection with a non-nil error; responses in request order; nothing after the end; clean end => nil; nil => as many responses as complete frames; truncated length prefix or truncated body (including a stream that ends right after a length prefix) => error; oversize => error and < 8 MiB allocated. Non-trivial: >= 2 frames mixing well-formed and malformed, or a non-clean tail after >= 1 frame."
 
 func TestC12Stream(t *testing.T) {
 	vh.Run(t, vh.Spec[StreamCase]{Property: "C12", Name: "TestC12Stream", Rule: rule, Gen: genStream(false), Exec: exec})
